@@ -131,6 +131,10 @@ where
         self.next_to_encode.set(self.buffer.len());
     }
 
+    pub fn reserve_solver_vars_up_to(&mut self, var: usize) {
+        self.encoder.reserve_solver_vars_up_to(var)
+    }
+
     pub fn encoder(&self) -> &DynamicConstraintsEncoder {
         &self.encoder
     }
